@@ -196,6 +196,11 @@ def gen(props, tier, rng):
                         m, nb = malformed(rng, data)
                         bits = packets.bits_of(m) if nb is None else packets.bits_of(m)[:nb]
                         yield f'parse stack {esc(cfg)} L:{bits}'
+                    # the same bytes in a RIGHT-padded Buffer, cut at a bit that is not a byte boundary: what is left after the
+                    # headers keeps its side
+                    full = packets.bits_of(data)
+                    for cut in (len(full), max(0, len(full) - rng.randrange(1, 8)), max(0, len(full) - rng.randrange(9, 40))):
+                        yield f'parse stack {esc(cfg)} R:{full[:cut]}'
         # header parsers directly (header length is observable), every class, with and without prediction
         for cls, cfg in [('IPv6Parser', 'IPv6'), ('IPv4Parser', 'IPv4'), ('UDPParser', 'UDP'), ('CoAPParser', 'CoAP'), ('SCTPParser', 'SCTP')]:
             for _ in range(N):
@@ -240,6 +245,22 @@ def gen(props, tier, rng):
                             v4 = bytes([0x45, 0]) + ((20 + L2) & 0xffff).to_bytes(2, 'big') + bytes([0, 0, 0, 0, 64, 17, 0, 0]) + bytes(8) + udp
                             yield f'parse stack IPv6 {lbits(v6)}'
                             yield f'parse stack IPv4 {lbits(v4)}'
+            # SCTP: announced chunk and parameter lengths at and around every boundary, for every chunk type, in front of
+            # short and long remainders
+            sctp_common = bytes(12)
+            edge = [0, 1, 3, 4, 5, 7, 8, 16, 20, 0xfffb, 0xfffc, 0xfffd, 0xfffe, 0xffff]
+            for ctype in list(range(0, 16)) + [63, 64, 192, 255]:
+                for ln in edge:
+                    for body in (b'', bytes(4), bytes(16), bytes(40)):
+                        yield f'parse header SCTPParser 0 syn {lbits(sctp_common + bytes([ctype, 0]) + ln.to_bytes(2, "big") + body)}'
+            for ctype, fixed in ((1, 16), (2, 16), (4, 0), (5, 0), (6, 0), (9, 0)):     # chunks that carry parameters
+                for pl in edge:
+                    for tail in (b'', bytes(4), bytes(12)):
+                        params = (7).to_bytes(2, 'big') + pl.to_bytes(2, 'big') + tail
+                        clen = 4 + fixed + len(params)
+                        chunk = bytes([ctype, 0]) + clen.to_bytes(2, 'big') + bytes(fixed) + params
+                        yield f'parse header SCTPParser 0 syn {lbits(sctp_common + chunk)}'
+                        yield f'parse stack SCTP {lbits(sctp_common + chunk)}'
             # a header type that is its own next protocol (tunnels): nesting deeper than the interpreter's recursion limit
             import sys
             depth = sys.getrecursionlimit() + 200
